@@ -47,7 +47,14 @@ var extraTypes = []string{"int", "string", "ext.Shape", "*LShape"}
 // GenShapes builds a scenario with one method per shape.
 func GenShapes(shapes []Shape, id, pkgRel string) *Scenario {
 	b := NewBuilder(nil, Profile{}, id, pkgRel)
+	// vary how the imported operand package is named (by file)
+	h := 0
+	for _, c := range id {
+		h = h*31 + int(c)
+	}
+	b.PkgNameMode = []string{"", "differs", "alias-collide", ""}[h%4]
 	var methods []*Method
+	var argIface []*Method // arg-style shapes whose style comes from an interface-level notation
 	for i, sh := range shapes {
 		sp, dp := "", ""
 		if sh.SrcImp {
@@ -59,7 +66,8 @@ func GenShapes(shapes []Shape, id, pkgRel string) *Scenario {
 		src := b.Struct(sp, fmt.Sprintf("S%d", i), "X int", "Y string")
 		dst := b.Struct(dp, fmt.Sprintf("D%d", i), "X int", "Y string")
 		m := &Method{Name: fmt.Sprintf("M%d", i), HasErr: sh.Err}
-		if sh.Arg {
+		styleAtIface := sh.Arg && i%2 == 1
+		if sh.Arg && !styleAtIface {
 			m.Notations = append(m.Notations, N("style", "arg"))
 		}
 		if sh.Recv {
@@ -87,7 +95,20 @@ func GenShapes(shapes []Shape, id, pkgRel string) *Scenario {
 		}
 		m.Probes = []Probe{{Dst: "X", Mech: "same", DstT: "int", SrcT: "int"}, {Dst: "Y", Mech: "same", DstT: "string", SrcT: "string"}}
 		m.Trailing = "// shape " + sh.String()
-		methods = append(methods, m)
+		if styleAtIface {
+			argIface = append(argIface, m)
+		} else {
+			methods = append(methods, m)
+		}
+	}
+	if len(argIface) > 0 {
+		// an interface that sorts BEFORE "Convergen" and sets :style arg for all its methods
+		b.S.Ifaces = append(b.S.Ifaces, &Iface{Name: "AArgStyle", Converter: true, Notations: []Notation{N("convergen"), N("style", "arg")}, Methods: argIface})
+	}
+	if len(methods) == 0 {
+		s := b.Finish()
+		s.Feature("profile", "shapes8")
+		return s
 	}
 	s := b.Manual(methods...)
 	s.Feature("profile", "shapes8")
